@@ -239,8 +239,10 @@ def validate (trackWidth bound pixelThreshold diffusion : Rat) : Option String :
   else if diffusion < 0 then some "ValueError"
   else none
 
-/-- `_to_half_kernel_size`: `ceil(width / pixelsize) // 2` -/
-def halfKernelSize (width pixelSize : Rat) : Int := Py.floorDiv (-((-(width / pixelSize)).floor)) 2
+/-- `_to_half_kernel_size`: `np.ceil(width / pixelsize).astype(int) // 2` — a decision the code takes on
+    doubles, so the model takes it on the same doubles -/
+def halfKernelSize (width pixelSize : Float) : Int :=
+  Py.floorDiv (Float.ceil (width / pixelSize)).toInt64.toInt 2
 
 /-! ### protocol -/
 open Verif.Proto
@@ -314,8 +316,8 @@ def handle : List String → Option String
     let tw ← rat? tw; let bound ← rat? bound; let thr ← rat? thr; let diff ← rat? diff
     some ((validate tw bound thr diff).getD "ok")
   | ["c08.halfwidth", width, ps] => do
-    let width ← rat? width; let ps ← rat? ps
-    if ps = 0 then none else some (toString (halfKernelSize width ps))
+    let width ← float? width; let ps ← float? ps
+    some (toString (halfKernelSize width ps))
   | _ => none
 
 end Verif.C08
